@@ -1,4 +1,5 @@
 import Orx.IW.HB
+import Orx.IW.Completed
 /-! # Stale reads: the ticket protocol beyond sequentially consistent interleavings (C07)
 
 `Core.step` lets every load return the latest value. Under the C11 memory model only read-modify-writes and the
@@ -147,6 +148,60 @@ theorem mutex_weak (s : Script) (ps : Nat → List Req) (hok : ∀ t, ∀ r ∈ 
     (σ : List (Nat × Stale)) (hW : (runS s σ (init ps)).R < W) (t u : Nat) (htu : t ≠ u)
     (ht : ((runS s σ (init ps)).th t).pc.inCS = true) (hu : ((runS s σ (init ps)).th u).pc.inCS = true) : False :=
   mutex (inv_runS σ (inv_init s ps hok) hW) t u htu ht hu
+
+/-! ## The end is permanent under stale reads (C05, C06) -/
+
+theorem stepS_th_other (s : Script) (t u : Nat) (st : Stale) (c : Cfg) (hu : u ≠ t) : (stepS s t st c).th u = c.th u := by
+  unfold stepS
+  split
+  · split
+    · split
+      · simp [setTh, hu]
+      · split <;> simp [setTh, hu]
+    · exact step_th_other s t u c hu
+  · simp [setTh, hu]
+  · exact step_th_other s t u c hu
+
+theorem stepS_C_mono (s : Script) (t : Nat) (st : Stale) (c : Cfg) (h : c.C = true) : (stepS s t st c).C = true := by
+  unfold stepS
+  split
+  · split
+    · split
+      · simpa using h
+      · split <;> simpa using h
+    · exact step_C_mono s t c h
+  · simpa using h
+  · exact step_C_mono s t c h
+
+/-- a thread that is between pulls, or has not yet passed the (`SeqCst`, hence fresh) check of `completed` after
+reserving, never takes a stale step: stale loads only exist at `wait` and `chk` -/
+theorem stepS_quiet_eq (s : Script) (t : Nat) (st : Stale) (c : Cfg) (hq : (c.th t).pc.quiet = true) :
+    stepS s t st c = step s t c := by
+  unfold stepS
+  split
+  · rename_i r b y hpc; simp [hpc, Pc.quiet] at hq
+  · rename_i r b hpc; simp [hpc, Pc.quiet] at hq
+  · rfl
+
+theorem quiet_stepS (s : Script) (t u : Nat) (st : Stale) (c : Cfg) (hC : c.C = true) (hq : (c.th u).pc.quiet = true) :
+    ((stepS s t st c).th u).pc.quiet = true ∧ outPos ((stepS s t st c).th u) = outPos (c.th u) := by
+  by_cases hu : u = t
+  · subst hu
+    rw [stepS_quiet_eq s u st c hq]
+    exact quiet_step s u u c hC hq
+  · rw [stepS_th_other s t u st c hu]; exact ⟨hq, rfl⟩
+
+/-- **Once `completed` is set, a thread that starts a pull never receives a position — also under stale loads.** -/
+theorem quiet_runS (s : Script) (σ : List (Nat × Stale)) (u : Nat) (c : Cfg) (hC : c.C = true) (hq : (c.th u).pc.quiet = true) :
+    ((runS s σ c).th u).pc.quiet = true ∧ outPos ((runS s σ c).th u) = outPos (c.th u) := by
+  induction σ generalizing c with
+  | nil => exact ⟨hq, rfl⟩
+  | cons p ps ih =>
+    obtain ⟨t, st⟩ := p
+    simp only [runS]
+    have h1 := quiet_stepS s t u st c hC hq
+    have h2 := ih (stepS s t st c) (stepS_C_mono s t st c hC) h1.1
+    exact ⟨h2.1, h2.2.trans h1.2⟩
 
 /-! ## Happens-before under stale reads -/
 
